@@ -155,7 +155,9 @@ class SystemClock: public Clock {
     void syncNow(acetime_t epochSeconds) {
       if (epochSeconds == kInvalidSeconds) return;
       mLastSyncTime = epochSeconds;
-      if (mEpochSeconds == epochSeconds) return;
+      // Compare against the caught-up time. mEpochSeconds is only as fresh as
+      // the last getNow(), so comparing it directly can skip a real change.
+      if (getNow() == epochSeconds) return;
 
       mEpochSeconds = epochSeconds;
       mPrevMillis = clockMillis();
